@@ -486,6 +486,7 @@ func runC05(cfg Config) {
 		}
 	}
 	setDigest("sha512")
+	c05CLI(cfg, rep, rng)
 	rep.Write(cfg.Out)
 }
 
